@@ -176,9 +176,11 @@ def gstep (kind : Kind) (h : Nat → Nat) (s : PState) (op : Op) : Option (PStat
     | some b => some (s, .flag b)
     | none => none
   | .notEqual t u =>
-    -- `!(*this == other)`
-    match gEqual kind h (s.get t) (s.get u) with
-    | some b => some (s, .flag (!b))
+    match (match kind with
+      | .map => (HashLink.HashMap.notEqual h (s.get t) (s.get u)).map (·.2)
+      | .set => (HashLink.HashSet.notEqual h (s.get t) (s.get u)).map (·.2)
+      | .pool => (PTable.equal kind (s.get t) (s.get u)).map (!·)) with      -- PoolMap has no `operator!=` (rejected)
+    | some b => some (s, .flag b)
     | none => none
   | .assignSelf t =>
     optSet s t (match kind with
